@@ -20,6 +20,7 @@ CONSTANTS
  Vals <- {vals}
  MaxLen = {ml}
  MaxBlock = {mb}
+ CopyKinds <- {kinds}
  CountValid = {cv}
  MaxDepth = {d}
 CHECK_DEADLOCK FALSE
@@ -141,6 +142,10 @@ def _replay(job):
             steps.append([st["a"], st.get("blk", st.get("kind"))])
             try:
                 fut.step(st)
+                # observe only where the writer is closed anyway, and at the
+                # end of the history (all prefixes are histories of their own)
+                if fut.hw is not None and i < len(hist_) - 1:
+                    continue
                 obs = fut.observe()
             except Exception as exc:
                 viol = ("%s raises %s" % (st["a"], type(exc).__name__),
@@ -174,7 +179,7 @@ def _replay(job):
         fut.close()
         shutil.rmtree(d, ignore_errors=True)
     return {"feature": feat, "steps": steps,
-            "final_data": hist_[len(steps) - 1]["data"]}, viol
+            "final_data": hist_[len(steps) - 1]["data"] if steps else []}, viol
 
 
 _replay.n = 0
@@ -201,13 +206,13 @@ def main(tier, seed, replay=None):
     # 1. design level: the write paths keep the stored summaries correct
     ok = tlc.run("MC_Summaries", DESIGN + BASE.format(
         vals="MCVals", ml=5 if tier == "quick" else 6, mb=2, cv="TRUE",
-        d=9), timeout=2000, coverage=(tier == "thorough"))
+        d=9, kinds="KindsAll"), timeout=2000, coverage=(tier == "thorough"))
     ev.add_tlc("MC_Summaries design (CountValid) StoredCorrect", ok)
     if not ok.ok:
         raise tlc.TLCError("repaired SummariesSpec violates StoredCorrect\n"
                            + ok.cex)
     bad = tlc.run("MC_Summaries", DESIGN + BASE.format(
-        vals="MCVals", ml=4, mb=2, cv="FALSE", d=9), timeout=600)
+        vals="MCVals", ml=4, mb=2, cv="FALSE", d=9, kinds="KindsAll"), timeout=600)
     ev.extra["deviation_model_counterexample"] = bad.violated
     if bad.ok:
         raise tlc.TLCError("size-weighted running mean no longer yields a "
@@ -215,12 +220,13 @@ def main(tier, seed, replay=None):
     # 2. spec -> code
     d = 3 if tier == "quick" else 4
     res = tlc.run("MC_Summaries", HIST + BASE.format(
-        vals="MCValsSmall", ml=6, mb=2, cv="TRUE", d=d), workers=8,
+        vals="MCValsSmall", ml=6, mb=2, cv="TRUE", d=d,
+        kinds="KindsQuick" if tier == "quick" else "KindsAll"), workers=8,
         timeout=3000)
     ev.add_tlc("MC_Summaries histories depth %d" % d, res)
     hs = res.tagged("H")
-    if tier == "quick":
-        hs = hs[seed % 3::3]
+    if tier == "quick" and len(hs) > 20000:
+        hs = hs[seed % 2::2]
     elif len(hs) > 120000:
         hs = hs[seed % 4::4]
     root = tlc.scratch_dir("vp_c20_")
